@@ -14,10 +14,18 @@ import ast
 import importlib.abc
 import importlib.machinery
 import operator
+import os
 import signal
 import sys
+import time
 
 TICK_NAME = '__esrsim_tick__'
+_real_setitimer = signal.setitimer
+# Real-time upper bound for one timed block.  The virtual clock never expires by itself, so a
+# pathological sympy call that real ESR would cut off after tmax seconds would otherwise hang the
+# simulation.  An expiry by this cap is a legal timeout (fault kind F3) but load dependent: worlds
+# in which it fired are flagged and only schedule/byte-independent oracles are applied to them.
+REAL_CAP = float(os.environ.get('ESRSIM_REAL_CAP', '30'))
 
 
 class Ticker(ast.NodeTransformer):
@@ -90,6 +98,8 @@ class VClock:
         self.site = None
         self.leaks = 0
         self.alarm_calls = 0
+        self.real_expired = 0
+        self.t0 = 0.0
 
     # --- the replacement for signal.alarm -------------------------------------------------
     def alarm(self, n):
@@ -125,11 +135,18 @@ class VClock:
                 self.fire_at = int(ent[1])
             if self.deep or self.count_calls:
                 sys.settrace(self.gtrace)
+            self.t0 = time.monotonic()
+            if REAL_CAP > 0:
+                _real_setitimer(signal.ITIMER_REAL, REAL_CAP)
         else:
             self._close()
         return 0
 
     def _close(self, replaced=False):
+        if REAL_CAP > 0:
+            _real_setitimer(signal.ITIMER_REAL, 0)
+            if self.open and time.monotonic() - self.t0 >= REAL_CAP - 0.01:
+                self.real_expired += 1
         if self.open:
             if self.record:
                 self.profile.append((self.blocks, self.ticks, self.calls, tuple(self.path), self.site))
@@ -145,6 +162,8 @@ class VClock:
     def _consume(self):
         """The (one-shot) timer has expired: nothing is pending any more, whether or not the
         interrupted code ever reaches its alarm(0)."""
+        if REAL_CAP > 0:
+            _real_setitimer(signal.ITIMER_REAL, 0)
         if self.record:
             self.profile.append((self.blocks, self.ticks, self.calls, tuple(self.path), self.site))
         self.open = False
@@ -182,6 +201,8 @@ class VClock:
     # --- a timer that is still pending outside its block fires at the next MPI call ---------
     def on_mpi(self):
         if self.open:
+            if REAL_CAP > 0:
+                _real_setitimer(signal.ITIMER_REAL, 0)
             self.leaks += 1
             self.open = False
             self.fire_at = None
@@ -190,7 +211,7 @@ class VClock:
 
     def report(self):
         return dict(blocks=self.blocks, fired=list(self.fired), armed_not_fired=list(self.armed_not_fired),
-                    leaks=self.leaks, profile=list(self.profile) if self.record else None)
+                    leaks=self.leaks, real_expired=self.real_expired, profile=list(self.profile) if self.record else None)
 
 
 CLOCK = VClock()
